@@ -41,6 +41,7 @@ type CaseResult struct {
 	Seconds     float64
 	ToolErr     string
 	Skipped     []bool // goals that still contain free symbols under the stage's substitution
+	Concrete    map[string]CaseInst // failing instance label -> fully constant instance on which the goal fails
 }
 
 const caseBatch = 300
@@ -49,6 +50,217 @@ const caseBatch = 300
 // satisfiable on every instance: a vacuity check-sat is issued per instance when they do not
 // simplify to true).
 func RunCases(prelude string, assumes []*Term, goals []CaseGoal, insts []CaseInst, dir, name string, timeoutS int) CaseResult {
+	// Instances that leave receiver bits open and whose goals still mention them after simplification
+	// (the code reads metrics outside the stage) are first tried on candidate values of the open bits
+	// (ground, fast, and a failing candidate is a concrete input); only when every candidate passes
+	// is the symbolic query (all values of the open bits) sent to the solver.
+	if len(insts) == 0 || !subHasRest(insts[0].Sub) {
+		return runCasesCore(prelude, assumes, goals, insts, dir, name, timeoutS)
+	}
+	termMu.Lock()
+	var closed, open []CaseInst
+	for _, in := range insts {
+		termMark()
+		isOpen := false
+		memo := map[*Term]*Term{}
+		for _, g := range goals {
+			x := Subst(g.Cond, in.Sub, memo)
+			if implMentionsRest(x, map[*Term]bool{}) {
+				isOpen = true
+			}
+		}
+		termRelease()
+		if isOpen {
+			open = append(open, in)
+		} else {
+			closed = append(closed, in)
+		}
+	}
+	termMu.Unlock()
+	if len(open) == 0 {
+		return runCasesCore(prelude, assumes, goals, insts, dir, name, timeoutS)
+	}
+	phase1 := append([]CaseInst(nil), closed...)
+	candOf := map[string]string{} // candidate label -> original label
+	for _, in := range open {
+		for _, c := range candidateInsts(in) {
+			candOf[c.Label] = in.Label
+			phase1 = append(phase1, c)
+		}
+	}
+	res := runCasesCore(prelude, assumes, goals, phase1, dir, name+".cand", timeoutS)
+	res.Instances = len(insts)
+	res.Concrete = map[string]CaseInst{}
+	vac := map[string]bool{}
+	for _, v := range res.Vacuous {
+		vac[v] = true
+	}
+	var keepVac []string
+	for _, v := range res.Vacuous {
+		if _, isCand := candOf[v]; !isCand {
+			keepVac = append(keepVac, v) // a candidate outside the assumptions is simply not a witness
+		}
+	}
+	res.Vacuous = keepVac
+	failedOpen := map[string]bool{}
+	var fails []caseFail
+	for _, f := range res.Fails {
+		orig, isCand := candOf[f.Label]
+		if !isCand {
+			fails = append(fails, f)
+			continue
+		}
+		if vac[f.Label] || f.Status != "sat" {
+			continue
+		}
+		if !failedOpen[orig+fmt.Sprint(f.Goal)] {
+			failedOpen[orig+fmt.Sprint(f.Goal)] = true
+			failedOpen[orig] = true
+			fails = append(fails, caseFail{Goal: f.Goal, Label: orig, Status: "sat"})
+			for _, c := range phase1 {
+				if c.Label == f.Label {
+					c.Label = orig
+					res.Concrete[orig] = c
+					break
+				}
+			}
+		}
+	}
+	res.Fails = fails
+	var phase2 []CaseInst
+	for _, in := range open {
+		if !failedOpen[in.Label] {
+			phase2 = append(phase2, in)
+		}
+	}
+	if len(phase2) > 0 {
+		r2 := runCasesCore(prelude, assumes, goals, phase2, dir, name+".open", timeoutS)
+		res.Fails = append(res.Fails, r2.Fails...)
+		res.Vacuous = append(res.Vacuous, r2.Vacuous...)
+		res.SolverCalls += r2.SolverCalls
+		res.Seconds += r2.Seconds
+		if r2.ToolErr != "" && res.ToolErr == "" {
+			res.ToolErr = r2.ToolErr
+		}
+	}
+	return res
+}
+
+// implMentionsRest: do open receiver bits occur in the term outside the receiver object handed to the
+// specification functions (mk-CVSSnn ...)?  The specification reads the whole object by definition;
+// what matters is whether the implementation's side still depends on bits the stage leaves open.
+func implMentionsRest(t *Term, seen map[*Term]bool) bool {
+	if seen[t] {
+		return false
+	}
+	seen[t] = true
+	if t.Op == "sym" {
+		return strings.HasSuffix(t.Name, "!rest")
+	}
+	if strings.HasPrefix(t.Op, "mk-CVSS") {
+		return false
+	}
+	for _, a := range t.Args {
+		if implMentionsRest(a, seen) {
+			return true
+		}
+	}
+	return false
+}
+
+func subHasRest(sub map[*Term]*Term) bool {
+	for _, v := range sub {
+		if v.Op == "bv" || len(v.Args) == 0 {
+			continue
+		}
+		fs := map[*Term]bool{}
+		FreeSyms(v, fs, map[*Term]bool{})
+		for f := range fs {
+			if strings.HasSuffix(f.Name, "!rest") {
+				return true
+			}
+		}
+	}
+	return false
+}
+
+// candidateInsts: the instance with its open bits set to all zero, all one, and each single bit
+// set / cleared.  Caller holds termMu or is single-threaded with respect to term construction.
+func candidateInsts(in CaseInst) []CaseInst {
+	termMu.Lock()
+	defer termMu.Unlock()
+	rests := map[*Term]bool{}
+	for _, v := range in.Sub {
+		fs := map[*Term]bool{}
+		FreeSyms(v, fs, map[*Term]bool{})
+		for f := range fs {
+			if strings.HasSuffix(f.Name, "!rest") {
+				rests[f] = true
+			}
+		}
+	}
+	var rs []*Term
+	for r := range rests {
+		rs = append(rs, r)
+	}
+	sortTerms(rs)
+	all := func(v uint64) map[*Term]*Term {
+		m := map[*Term]*Term{}
+		for _, r := range rs {
+			m[r] = BVLit(v, 8)
+		}
+		return m
+	}
+	cands := []map[*Term]*Term{all(0), all(0xff)}
+	for _, r := range rs {
+		for b := 0; b < 8; b++ {
+			m := all(0)
+			m[r] = BVLit(1<<uint(b), 8)
+			cands = append(cands, m)
+			m2 := all(0xff)
+			m2[r] = BVLit(0xff&^(1<<uint(b)), 8)
+			cands = append(cands, m2)
+		}
+	}
+	var out []CaseInst
+	seen := map[string]bool{}
+	for i, c := range cands {
+		sub := map[*Term]*Term{}
+		memo := map[*Term]*Term{}
+		key := ""
+		for k, v := range in.Sub {
+			sub[k] = Subst(v, c, memo)
+		}
+		for _, r := range rs {
+			_ = r
+		}
+		// distinct candidates only (different open bits may fall outside the open mask)
+		var ks []string
+		for k, v := range sub {
+			if v.Op == "bv" {
+				ks = append(ks, k.Name+"="+v.IV.String())
+			}
+		}
+		sortStrings(ks)
+		key = strings.Join(ks, ",")
+		if seen[key] {
+			continue
+		}
+		seen[key] = true
+		out = append(out, CaseInst{Sub: sub, Label: fmt.Sprintf("%s [open bits candidate %d]", in.Label, i)})
+	}
+	return out
+}
+
+func sortStrings(a []string) {
+	for i := 1; i < len(a); i++ {
+		for j := i; j > 0 && a[j] < a[j-1]; j-- {
+			a[j], a[j-1] = a[j-1], a[j]
+		}
+	}
+}
+
+func runCasesCore(prelude string, assumes []*Term, goals []CaseGoal, insts []CaseInst, dir, name string, timeoutS int) CaseResult {
 	t0 := time.Now()
 	res := CaseResult{Instances: len(insts)}
 	type batchOut struct {
@@ -67,6 +279,11 @@ func RunCases(prelude string, assumes []*Term, goals []CaseGoal, insts []CaseIns
 			x := Subst(g.Cond, insts[0].Sub, map[*Term]*Term{})
 			fs := map[*Term]bool{}
 			FreeSyms(x, fs, map[*Term]bool{})
+			for f := range fs {
+				if strings.HasSuffix(f.Name, "!rest") {
+					delete(fs, f) // open bits of the receiver: the goal is checked for all their values
+				}
+			}
 			if len(fs) > 0 {
 				res.Skipped[gi] = true
 				if os.Getenv("GOVC_DEBUG") != "" {
@@ -96,6 +313,9 @@ func RunCases(prelude string, assumes []*Term, goals []CaseGoal, insts []CaseIns
 		termMark()
 		var sb strings.Builder
 		sb.WriteString(scriptHead)
+		// ground instances are decided in milliseconds; an instance that keeps open receiver bits
+		// (code reading metrics outside the stage) may be hard: bound each query
+		sb.WriteString("(set-option :timeout 6000)\n")
 		sb.WriteString(filterPrelude(prelude, ""))
 		sb.WriteString(structSortDeclsExtra(prelude))
 		type expect struct {
@@ -170,13 +390,16 @@ func RunCases(prelude string, assumes []*Term, goals []CaseGoal, insts []CaseIns
 				}
 			}
 			outs[b].calls = len(exps)
-			if len(sts) != len(exps) || strings.Contains(out, "(error") {
+			if strings.Contains(out, "(error") || len(sts) == 0 || len(sts) > len(exps) {
 				outs[b].tool = fmt.Sprintf("batch %s: solver answered %d of %d queries: %s", bname, len(sts), len(exps), truncate(out, 600))
 				return
 			}
+			for len(sts) < len(exps) {
+				sts = append(sts, "unknown") // the solver ran out of time on this batch: undecided instances
+			}
 			for k, e := range exps {
 				if e.goal < 0 {
-					if sts[k] != "sat" {
+					if sts[k] == "unsat" {
 						outs[b].vac = append(outs[b].vac, insts[e.inst].Label)
 					}
 					continue
@@ -281,10 +504,69 @@ func receiverSyms(fr *FuncRun) []*Term {
 	return r
 }
 
+// knownMask: the bits of each byte that belong to the metrics fixed by 'codes'.
+func knownMask(rp *Repr, codes map[string]int) []uint8 {
+	k := make([]uint8, rp.NBytes)
+	for _, f := range rp.Fields {
+		if _, ok := codes[f.Metric]; !ok {
+			continue
+		}
+		for _, p := range f.Pieces {
+			pw := p.Hi - p.Lo + 1
+			k[p.Byte] |= uint8(((1 << uint(pw)) - 1) << uint(p.Lo))
+		}
+	}
+	return k
+}
+
+// restSym: the symbol standing for the bits of a receiver byte that an instance leaves open.
+// The two objects of a monotonicity pair (suffix "_b") share their open bits.
+func restSym(s *Term) *Term {
+	return Sym(strings.Replace(s.Name, "_b_u", "_u", 1)+"!rest", s.Sort)
+}
+
+// objSubP substitutes, for every receiver byte, the constant bits of the metrics the instance fixes
+// and leaves all other bits symbolic: byte = C | (rest & ~K).  A goal that is proved on the instance
+// is therefore proved for every value of the metrics the stage does not enumerate; code that masks
+// its fields correctly simplifies to the same ground terms as with a fully constant object.
+func objSubP(syms []*Term, bytes, known []uint8) map[*Term]*Term {
+	m := map[*Term]*Term{}
+	for i, s := range syms {
+		if known[i] == 0xff {
+			m[s] = BVLit(uint64(bytes[i]), 8)
+			continue
+		}
+		m[s] = BVBin("bvor", BVLit(uint64(bytes[i]&known[i]), 8), BVBin("bvand", restSym(s), BVLit(uint64(^known[i]), 8)))
+	}
+	return m
+}
+
 func objSub(syms []*Term, bytes []uint8) map[*Term]*Term {
 	m := map[*Term]*Term{}
 	for i, s := range syms {
 		m[s] = BVLit(uint64(bytes[i]), 8)
 	}
 	return m
+}
+
+// concretizeInst turns an instance with open receiver bits into a fully constant one on which the goal
+// fails (for the replay on the real code).
+func concretizeInst(res *CaseResult, in CaseInst) (CaseInst, bool) {
+	if !subHasRest(in.Sub) {
+		return in, true
+	}
+	if res != nil && res.Concrete != nil {
+		if c, ok := res.Concrete[in.Label]; ok {
+			return c, true
+		}
+	}
+	return in, false
+}
+
+func sortTerms(ts []*Term) {
+	for i := 1; i < len(ts); i++ {
+		for j := i; j > 0 && ts[j].Name < ts[j-1].Name; j-- {
+			ts[j], ts[j-1] = ts[j-1], ts[j]
+		}
+	}
 }
